@@ -249,7 +249,8 @@ class BitArray(Bits):
             raise ValueError("Cannot shift an empty bitstring.")
         if not n:
             return self
-        n = min(n, len(self))
+        # A plain int, as an unsigned numpy integer would wrap around when it's negated later on.
+        n = int(min(n, len(self)))
         return self._irshift(n)
 
     def __imul__(self: TBits, n: int) -> TBits:
